@@ -636,6 +636,7 @@ func ccDeepEq(a, b reflect.Value) bool {
 }
 
 var ccUseNumber = Config{EscapeHTML: true, SortMapKeys: true, CompactMarshaler: true, CopyString: true, ValidateString: true, UseNumber: true}.Froze()
+var ccNoCopy = Config{EscapeHTML: true, SortMapKeys: true, CompactMarshaler: true, ValidateString: true}.Froze()
 var ccUnicodeErrors = Config{EscapeHTML: true, SortMapKeys: true, CompactMarshaler: true, CopyString: true, ValidateString: true, UseUnicodeErrors: true}.Froze()
 
 // ccHoldsText: destinations that store the decoded text of a JSON string (so that a lone
@@ -705,6 +706,22 @@ func ccCompareUnmarshalPre(t *testing.T, id string, ctx string, ty reflect.Type,
 				gj, _ := json.Marshal(got2.Interface())
 				ccFail(t, "ownership:"+strings.TrimPrefix(strings.TrimPrefix(id, "decode:"), "sizes:"), "[%s] %s: the decoded value changes when the input buffer is overwritten: %.300s", ctx, doc, gj)
 			}
+		}
+	}
+	if !useNumber {
+		// without CopyString (sonic's default configuration) strings may refer to the input,
+		// but while the input lives the decoded value is the same
+		nid := "nocopy:" + strings.TrimPrefix(strings.TrimPrefix(id, "decode:"), "sizes:")
+		got4 := reflect.New(ty)
+		if pre != "" {
+			json.Unmarshal([]byte(pre), got4.Interface())
+		}
+		err4 := ccNoCopy.UnmarshalFromString(doc, got4.Interface())
+		if (err4 == nil) != (gerr == nil) {
+			ccFail(t, nid, "[%s] %s: accepts=%v without CopyString, accepts=%v with it -- %v", ctx, doc, err4 == nil, gerr == nil, err4)
+		} else if err4 == nil && !ccDeepEq(got.Elem(), got4.Elem()) {
+			gj, _ := json.Marshal(got4.Interface())
+			ccFail(t, nid, "[%s] %s: without CopyString sonic decodes it as %.300s", ctx, doc, gj)
 		}
 	}
 	if !useNumber && pre == "" {
@@ -814,7 +831,7 @@ type ccSized struct {
 
 // TestVerifConform_sizes: document sizes around the buffer, padding and node-pool
 // boundaries of the decoders (every length 0..300, and +-70 around 2^9..2^14 bytes; up to
-// 30 000 values in one document), decoded one after the other so that pooled buffers are
+// 40 000 values in one document), decoded one after the other so that pooled buffers are
 // reused; the result must be encoding/json's whatever was decoded before.
 func TestVerifConform_sizes(t *testing.T) {
 	cases := 0
@@ -843,7 +860,13 @@ func TestVerifConform_sizes(t *testing.T) {
 		ccCompareUnmarshal(t, fmt.Sprintf("sizes:array-filling-%d-bytes", l), "ccSized.L", tyS, `{"L":[`+arr+`]}`, false)
 		ccCompareUnmarshal(t, fmt.Sprintf("sizes:escaped-string-of-%d-bytes", l), "interface{}", reflect.TypeOf((*interface{})(nil)).Elem(), `["`+pat(l, `ab\"cd\\ef\n`[0:2]+"xyz")+`\u00e9",`+fmt.Sprint(l)+`]`, true)
 	}
-	for _, n := range []int{10, 100, 1000, 4095, 4096, 4097, 30000} {
+	// around the initial capacity of the pooled, padded copy of the input (1 MiB)
+	for d := -80; d <= 2; d++ {
+		cases++
+		l := 1<<20 + d
+		ccCompareUnmarshal(t, fmt.Sprintf("sizes:document-of-1MiB%+d-bytes", d), "ccSized.S", tyS, `{"S":"`+pat(l-8, "abcdefghijklmnopqrstuvwxyz012345")+`"}`, false)
+	}
+	for _, n := range []int{10, 100, 1000, 4095, 4096, 4097, 40000} {
 		var sb strings.Builder
 		sb.WriteString(`{"A":[`)
 		for i := 0; i < n; i++ {
